@@ -32,7 +32,9 @@ def universe():
 
 
 def cases(tier, seed):
-    return stratified_sample(universe(), lambda c: c["stratum"], 1300 if tier == "quick" else 0, seed)
+    # hostile strings are pooled into 4 strata so that fixtures / mutants of every dialect dominate the quick sample
+    key = lambda c: ("hs:%d" % (c["n"] % 4)) if c["kind"] == "hs" else c["stratum"]
+    return stratified_sample(universe(), key, 1500 if tier == "quick" else 0, seed)
 
 
 def run_case(case):
